@@ -1,6 +1,6 @@
 #!/usr/bin/env python3
 """Regenerates MANIFEST.json from the table below (kept in one place so the manifest is always valid)."""
-import json, os
+import json, sys, os
 HERE = os.path.dirname(os.path.dirname(os.path.abspath(__file__)))
 props = [json.loads(l) for l in open(os.path.join(HERE, "properties.jsonl"))]
 TB = "Trusted: rustc front end + MIR construction (opt-level 0), the std/external models in sa/models.py (one doc citation each), 64-bit usize, debug overflow checks. "
@@ -82,10 +82,17 @@ INCLUDES = {
     "C19": "That digesting a block does not panic inside the sign-type code (hand-written fmt impls included) is C12's inventory restricted to that code, run here as C19.total(..).",
     "C17": "The byte-stream leg (Frame::read / Frame::write) is decided by running C15's rule set here too, as C17.io(..).",
 }
+# the S-rules (DESIGN.md section 3, A9): the entry-point set of every role a property is reached through is closed
+sys.path.insert(0, os.path.join(HERE, "sa"))
+import surface
 checks = []
 for pid, (lvl, tech, text, note, ref) in CLAIMED.items():
     if pid in INCLUDES:
         text = text + " " + INCLUDES[pid]
+    roles = surface.ROLEMAP.get(pid, ())
+    if roles:
+        text = text + " Entry points: every externally reachable function from which the protected state or calls of the roles %s can be reached is one the rule set analyses, or a transparent forwarder to one (%s.S; DESIGN.md A9)." % (", ".join(roles), pid)
+        tech = tech + "; A9 closed entry-point set over effective visibility and the resolved call graph"
     checks.append({"property_id": pid, "quick_cmd": "./check %s --tier quick" % pid, "thorough_cmd": "./check %s --tier thorough" % pid,
                    "evidence_file": "evidence/%s.json" % pid, "replay_cmd_template": "./check %s --tier quick  # the replay file {path} names the construct and rule" % pid,
                    "engine": "mirfacts+sa", "level_claimed": {"category": lvl, "text": text, "design_ref": ref}, "level_note": note, "technique": tech})
